@@ -57,7 +57,9 @@ var c15Kinds = []string{"sig-hs384", "sig-hs512", "minted", "minted", "built", "
 func genC15(t *rapid.T) c15Case {
 	c := c15Case{Signed: rapid.Bool().Draw(t, "signed")}
 	c.LongKey = c.Signed && rapid.IntRange(0, 2).Draw(t, "longKey") == 0
-	c.User = rapid.SampledFrom([]string{"alice.liddell", "bob@example.com", "Ünïcødé-üser-名前", "user with spaces", strings.Repeat("long-user-", 12), "x", "victim.user@example.org"}).Draw(t, "user")
+	c.User = rapid.SampledFrom([]string{"alice.liddell", "bob@example.com", "Ünïcødé-üser-名前", "user with spaces", strings.Repeat("long-user-", 12), "x", "victim.user@example.org",
+		strings.Repeat("very-long-user-name.", 10), strings.Repeat("u", 256) + "@example.org", strings.Repeat("dc=example,", 29) + "cn=u",
+		variedName(200), variedName(320), variedName(600)}).Draw(t, "user")
 	for i, n := 0, rapid.IntRange(1, 4).Draw(t, "nreq"); i < n; i++ {
 		r := c15Req{Method: "GET", Param: "one"}
 		if rapid.IntRange(0, 7).Draw(t, "oddReq") == 0 {
@@ -292,6 +294,9 @@ func runC15(c c15Case) *Violation {
 			}
 			continue
 		}
+		if r.Tok.Kind == "minted" && verdict != mustAccept {
+			return viol("c15/minted-not-valid", "the token the gateway minted for this user is not a valid token of the configured mode and keys by the reference (%s): %s", reason, desc)
+		}
 		leak := len([]rune(c.User)) >= 6 && (strings.Contains(body, c.User) || strings.Contains(body, jsonEscaped(c.User)))
 		switch verdict {
 		case mustReject:
@@ -430,5 +435,66 @@ func TestC15_BIN(t *testing.T) {
 			}
 		}
 		return binHealthQuick(in)
+	})
+}
+
+// variedName is a long user name that does not compress (the token is deflated before it is encrypted).
+func variedName(n int) string {
+	const alphabet = "abcdefghijklmnopqrstuvwxyzABCDEFGHIJKLMNOPQRSTUVWXYZ0123456789.-_@"
+	b := make([]byte, n)
+	x := uint32(2463534242)
+	for i := range b {
+		x ^= x << 13
+		x ^= x >> 17
+		x ^= x << 5
+		b[i] = alphabet[x%uint32(len(alphabet))]
+	}
+	return string(b)
+}
+
+// ---- real time: a token that was accepted once is refused once it has expired ----
+
+type c15Expiry struct {
+	Signed  bool `json:"sign_and_encrypt"`
+	ExpIn   int  `json:"exp_in_s"` // relative to the first presentation (negative: inside the verifier's leeway)
+	WaitS   int  `json:"wait_s"`
+	Presents int `json:"presentations_while_valid"`
+}
+
+func TestC15_EXPIRY(t *testing.T) {
+	runProp(t, "C15_EXPIRY", func(t *rapid.T) c15Expiry {
+		return c15Expiry{Signed: rapid.Bool().Draw(t, "signed"), ExpIn: rapid.SampledFrom([]int{-50, -48, -52}).Draw(t, "expIn"), WaitS: 16, Presents: rapid.IntRange(1, 3).Draw(t, "presents")}
+	}, func(c c15Expiry) (bool, []string) { return true, []string{fmt.Sprintf("signed=%v", c.Signed)} }, func(c c15Expiry) *Violation {
+		cc := c15Case{Signed: c.Signed, User: "expiry.user@example.org"}
+		security.UserEncryptionKey = []byte(c15EncKey)
+		c15CurSignKey = c15SignKey
+		security.UserSigningKey = nil
+		if c.Signed {
+			security.UserSigningKey = []byte(c15SignKey)
+		}
+		now := time.Now()
+		tok, err := c15Build(c15Tok{Kind: "exp", ExpIn: c.ExpIn}, cc, now)
+		if err != nil {
+			return viol("c15/mint-error", "%v", err)
+		}
+		get := func() int {
+			req := httptest.NewRequest("GET", "/tokeninfo?access_token="+url.QueryEscape(tok), nil)
+			rr := httptest.NewRecorder()
+			web.TokenInfo(rr, req)
+			return rr.Code
+		}
+		var first []int
+		for i := 0; i < c.Presents; i++ {
+			first = append(first, get())
+		}
+		time.Sleep(time.Until(now.Add(time.Duration(c.WaitS) * time.Second)))
+		// exp is now more than 64 s in the past: beyond any leeway the verifier grants
+		if code := get(); code != 403 {
+			return viol("c15/accepted/expired-after-earlier-presentation", "a token with exp %d s before its first presentation (answered %v then) was answered %d when presented again %d s later, i.e. %d s after its expiry (mode signed=%v)", -c.ExpIn, first, code, c.WaitS, c.WaitS-c.ExpIn, c.Signed)
+		}
+		if _, err := security.UserInfo(context.Background(), tok); err == nil {
+			return viol("c15/accepted/expired-after-earlier-presentation", "UserInfo accepts a token %d s after its expiry once it had been presented while valid (mode signed=%v)", c.WaitS-c.ExpIn, c.Signed)
+		}
+		return nil
 	})
 }
